@@ -3,7 +3,7 @@ package lib
 import (
 	"fmt"
 	"log/slog"
-	"strings"
+	"regexp"
 	"time"
 
 	rtcm "github.com/goblimey/go-ntrip/rtcm/handler"
@@ -157,17 +157,22 @@ func formatMs(t int64) string {
 	return time.UnixMilli(t).UTC().Format("2006-01-02 15:04:05.000 Mon")
 }
 
-// parseReported extracts the instant from "Time <layout>" / "Start of X week <layout>[ plus ...]".
+// parseReported extracts the instant from a reported time line ("Time <date>",
+// "Start of X week <date>[ plus ...]").  The wording around the date is not
+// part of the property: the first date-time in the string is taken, in the
+// library's display layout or RFC 3339.
+var reDisplay = regexp.MustCompile(`\d{4}-\d{2}-\d{2} \d{2}:\d{2}:\d{2}(\.\d+)? [+-]\d{4} [A-Za-z0-9+-]+`)
+var reRFC3339 = regexp.MustCompile(`\d{4}-\d{2}-\d{2}T\d{2}:\d{2}:\d{2}(\.\d+)?(Z|[+-]\d{2}:\d{2})`)
+
 func parseReported(s, prefix string) (time.Time, error) {
-	if !strings.HasPrefix(s, prefix) {
-		return time.Time{}, fmt.Errorf("missing prefix %q in %q", prefix, s)
+	_ = prefix
+	if m := reDisplay.FindString(s); m != "" {
+		return time.Parse("2006-01-02 15:04:05.999999999 -0700 MST", m)
 	}
-	rest := strings.TrimPrefix(s, prefix)
-	f := strings.Fields(rest)
-	if len(f) < 4 {
-		return time.Time{}, fmt.Errorf("no time in %q", s)
+	if m := reRFC3339.FindString(s); m != "" {
+		return time.Parse(time.RFC3339Nano, m)
 	}
-	return time.Parse("2006-01-02 15:04:05.999 -0700 MST", strings.Join(f[:4], " "))
+	return time.Time{}, fmt.Errorf("no date and time in %q", s)
 }
 
 func gnssTime(prop string, anyStart bool) func(*hx.Ctx) *hx.Outcome {
